@@ -32,7 +32,7 @@ def balance_rule(ctx, rid="C09.R1"):
     ctx.rule(rid, "no path of any function returns with an outstanding Bitboard::make on a board it borrowed", floor=3)
     ctx.rule(rid + "m", "the move taken back is the move that was made (same expression)", floor=2)
     for anchor in (B.MAKE, B.UNMAKE, SEARCH + "search_negamax", SEARCH + "search_quiescence"):
-        ctx.fn(rid, anchor)
+        ctx.fn(rid, anchor, positional=False)     # (presence only: the balance is explored on whatever they look like)
     # the board crate's own probes and converters are judged by C03.R5 / C13.R1; everything that
     # uses a board from outside (search, engine, apps) is judged here
     fns = [(k, f) for k, f in workspace_fns(ctx.prog) if not committers.get(k, {}).get("skip") and f["crate"] != "inkayaku_board"]
